@@ -1313,6 +1313,107 @@ def rule_py_row_major(out):
         out.undecided(rid, "anchor/array calls", "tooling/internal/python/static_files", "no reshape/ravel/flatten call found")
 
 
+def rule_py_flags_names_only_when_complete(out):
+    rid = "PF2"
+    out.rule(rid, "_ndjson.py FlagsConverter.to_json: the list of flag names is returned only where the bits not covered by a name are known to be zero (`remaining == 0`); "
+                  "otherwise the integer is written — a value with undefined bits must not lose them", 1)
+    tree, rel = parse_py(out, "_ndjson.py")
+    cls = classes(tree).get("FlagsConverter")
+    fn = methods(cls).get("to_json") if cls else None
+    if fn is None:
+        out.undecided(rid, "anchor/FlagsConverter.to_json", rel, "method not found")
+        return
+    names_list, remaining = None, None
+    for n in ast.walk(fn):
+        if isinstance(n, (ast.Assign, ast.AnnAssign)):
+            tgt = n.targets[0] if isinstance(n, ast.Assign) else n.target
+            if isinstance(tgt, ast.Name) and isinstance(n.value, ast.List) and not n.value.elts:
+                names_list = tgt.id
+        if isinstance(n, ast.AugAssign) and isinstance(n.op, ast.BitAnd) and isinstance(n.target, ast.Name):
+            remaining = n.target.id
+    if not names_list or not remaining:
+        out.undecided(rid, "to_json/variables", pos(rel, fn), "the list of names / the remaining-bits variable was not recognised")
+        return
+    parents = {}
+    for n in ast.walk(fn):
+        for ch in ast.iter_child_nodes(n):
+            parents[ch] = n
+
+    def is_zero_test(t):
+        if isinstance(t, ast.Compare) and len(t.ops) == 1 and isinstance(t.ops[0], ast.Eq):
+            a, b = t.left, t.comparators[0]
+            for x, y in ((a, b), (b, a)):
+                if isinstance(x, ast.Name) and x.id == remaining and isinstance(y, ast.Constant) and y.value == 0:
+                    return True
+        return isinstance(t, ast.UnaryOp) and isinstance(t.op, ast.Not) and isinstance(t.operand, ast.Name) and t.operand.id == remaining
+
+    k = 0
+    for r in ast.walk(fn):
+        if not isinstance(r, ast.Return) or r.value is None:
+            continue
+        uses = [x for x in ast.walk(r.value) if isinstance(x, ast.Name) and x.id == names_list]
+        if not uses:
+            continue
+        k += 1
+        ok = True
+        for u in uses:
+            guarded = False
+            cur, child = parents.get(u), u
+            while cur is not None and cur is not fn:
+                if isinstance(cur, ast.If) and is_zero_test(cur.test) and child in cur.body:
+                    guarded = True
+                if isinstance(cur, ast.IfExp) and is_zero_test(cur.test) and child is cur.body:
+                    guarded = True
+                child, cur = cur, parents.get(cur)
+            ok = ok and guarded
+        out.check(ok, rid, "to_json/return names#%d" % k, pos(rel, r), "returned under `%s == 0`" % remaining,
+                  "the list of names can be returned while `%s` is not known to be zero: a flags value with a bit that no name covers is written as the names alone and the bit is lost" % remaining)
+    if k == 0:
+        out.undecided(rid, "to_json/returns", pos(rel, fn), "no return of the list of names found")
+
+
+_PY_TRIVIAL = {
+    "Int8Serializer": "true", "UInt8Serializer": "true", "Float32Serializer": "true", "Float64Serializer": "true", "Complex32Serializer": "true", "Complex64Serializer": "true",
+    "EnumSerializer": "delegate", "FixedVectorSerializer": "delegate", "FixedNDArraySerializer": "delegate", "RecordSerializer": "all",
+}
+
+
+def rule_py_trivially_serializable_set(out):
+    rid = "TS3"
+    out.rule(rid, "_binary.py: the serializers whose arrays are copied to the wire as their memory image (is_trivially_serializable not False) are exactly the fixed-width "
+                  "one-byte / floating point / complex primitives, enums, fixed vectors and fixed arrays of such, and records of such — the set the C++ runtime uses (rule TS2); "
+                  "optionals, unions, strings, varint integers, dates and dynamic containers are written element by element", 10)
+    tree, rel = parse_py(out, "_binary.py")
+    n = 0
+    for cname, cls in classes(tree).items():
+        m = methods(cls).get("is_trivially_serializable")
+        if m is None:
+            continue
+        ret = [x for x in ast.walk(m) if isinstance(x, ast.Return) and x.value is not None]
+        kind = "other"
+        if len(ret) == 1:
+            v = ret[0].value
+            if isinstance(v, ast.Constant) and v.value is True:
+                kind = "true"
+            elif isinstance(v, ast.Constant) and v.value is False:
+                kind = "false"
+            elif isinstance(v, ast.Call) and isinstance(v.func, ast.Attribute) and v.func.attr == "is_trivially_serializable":
+                base = ast.unparse(v.func.value)
+                kind = "false" if base.startswith("super()") and cname != "TypeSerializer" else "delegate"
+            elif isinstance(v, ast.Call) and isinstance(v.func, ast.Name) and v.func.id == "all":
+                kind = "all"
+        n += 1
+        want = _PY_TRIVIAL.get(cname, "false")
+        out.check(kind == want, rid, "%s/is_trivially_serializable" % cname, pos(rel, m), "%s, as the wire format requires" % kind,
+                  "%s answers `%s` where the format requires `%s`: arrays of this type would be copied as raw memory although the wire form of an element differs from its memory image "
+                  "(or the other way round), so the bytes no longer match what C++ and MATLAB write" % (cname, kind, want))
+    for cname in _PY_TRIVIAL:
+        if cname not in classes(tree):
+            out.undecided(rid, "%s/is_trivially_serializable" % cname, rel, "class not found")
+    if n == 0:
+        out.undecided(rid, "anchor/is_trivially_serializable", rel, "no definition found")
+
+
 def _outcomes(stmts):
     """how a statement list can end: subset of {'raise', 'return', 'fall', 'jump'}"""
     out = set()
@@ -1877,15 +1978,16 @@ def rule_py_refill_scope(out):
         out.undecided(rid, "CodedInputStream/buffer reads", rel, "no indexed buffer read found")
 
 RULES = {
+    "C14": [rule_py_trivially_serializable_set],
     "C07": [rule_py_mixins_have_no_public_methods],
-    "C02": [rule_json_kinds, rule_ndjson_sentinel, rule_union_dispatch, rule_py_optional_identity, rule_py_fraction_padded, rule_py_row_major],
-    "C03": [rule_link, rule_py_wire_table, rule_py_capacity, rule_py_no_alias, rule_py_stream_blocks, rule_py_optional_identity, rule_ndjson_sentinel, rule_py_fraction_padded, rule_py_varint_constants, rule_py_length_prefix_measures_payload, rule_py_row_major],
+    "C02": [rule_json_kinds, rule_ndjson_sentinel, rule_union_dispatch, rule_py_optional_identity, rule_py_fraction_padded, rule_py_row_major, rule_py_flags_names_only_when_complete],
+    "C03": [rule_link, rule_py_wire_table, rule_py_capacity, rule_py_no_alias, rule_py_stream_blocks, rule_py_optional_identity, rule_ndjson_sentinel, rule_py_fraction_padded, rule_py_varint_constants, rule_py_length_prefix_measures_payload, rule_py_row_major, rule_py_flags_names_only_when_complete, rule_py_trivially_serializable_set],
     "C08": [rule_link],
     "C15": [rule_py_headers, rule_ndjson_key_order],
     "C16": [rule_py_eof, rule_py_refill_scope, rule_py_no_swallowed_eof],
     "C17": [rule_py_stream_blocks, rule_py_no_alias],
     "C04": [rule_py_headers, rule_py_write_order, rule_ndjson_key_order],
-    "C01": [rule_py_wire_table, rule_py_stream_blocks, rule_py_write_order, rule_py_no_alias, rule_py_varint_constants, rule_py_length_prefix_measures_payload],
+    "C01": [rule_py_wire_table, rule_py_stream_blocks, rule_py_write_order, rule_py_no_alias, rule_py_varint_constants, rule_py_length_prefix_measures_payload, rule_py_trivially_serializable_set],
 }
 
 
